@@ -293,4 +293,32 @@ def queueErrors (s : St) (errs : List Cand) : St :=
 def abortErroring (s : St) (errs : List Cand) : St :=
   errs.foldl (fun s c => abortFlow s c.fuid) s
 
+
+/-! ### the candidate scan with its head look-ups (`flow_state.heads[head_uid]`) -/
+
+/-- `state.flow_states[flow_state_uid].heads[head_uid]` succeeds -/
+def headPresent (s : St) (c : Cand) : Bool :=
+  match find s c.fuid with
+  | some f => f.heads.any (·.uid == c.huid)
+  | none => false
+
+/-- The loop over `head_candidates` including the look-up of every candidate's head in the CURRENT state
+    (`none` = the look-up raised KeyError, which leaves `run_to_completion`).
+    `abortInLoop = false`: the repaired tree — a raising candidate is collected in `heads_erroring`, its flow is aborted
+    after the loop (`abortErroring`);  `abortInLoop = true`: the rejected alternative (seeded change C10-b) that aborts
+    the flow right away, inside the loop. -/
+def scanLookup (abortInLoop : Bool) : St → List Cand → Option (St × MatchOut)
+  | s, [] => some (s, { matching := [], failing := [], erroring := [] })
+  | s, c :: cs =>
+    if !headPresent s c then none
+    else
+      match c.score with
+      | .err =>
+        let s1 := pushRight s .colangError
+        let s2 := if abortInLoop then abortFlow s1 c.fuid else s1
+        (scanLookup abortInLoop s2 cs).map fun r => (r.1, { r.2 with erroring := c :: r.2.erroring })
+      | .pos _ => (scanLookup abortInLoop s cs).map fun r => (r.1, { r.2 with matching := c :: r.2.matching })
+      | .neg => (scanLookup abortInLoop s cs).map fun r => (r.1, { r.2 with failing := c :: r.2.failing })
+      | .zero => scanLookup abortInLoop s cs
+
 end NemoVerif.ErrContain
